@@ -19,16 +19,18 @@ PROPS = {
         level_text="generated histories and goroutine rounds against an independent reference view; exploration, not proof",
         level_note="sequential oracle is exact (first eligible / maximal cached free count / any eligible; error iff none; blocked until expiry). "
                    "Under concurrency only interleaving-independent consequences are demanded (possibly/certainly eligible sets from happens-before stamps) plus the race detector; "
-                   "an interleaving needing a preemption between two adjacent statements of GetByID (stale cache fill after a Block) is only sampled, not forced. "
+                   "interleavings are sampled (start barrier, Gosched jitter inside describe and before calls), not enumerated. "
+                   "Guards (active only while listed in known_findings.json): C17-random-shuffle = policy random gets a private copy of the shared slice and its aliasing check is skipped; "
+                   "C17-stale-fill = for an id not cached at round start and blocked while another GetOne is in flight, a completed Block makes the blocked view possible rather than certain. "
                    "Describe counts (single-flight) are reported as labels, not demanded: the statement does not bound them.",
         tests=[
-            dict(unit="vswitch", test="TestVerifC17Select", quick=20000, thorough=1000000),
+            dict(unit="vswitch", test="TestVerifC17Select", quick=60000, thorough=2000000),
             dict(unit="vswitch", test="TestVerifC17KnownWitnessShuffle", quick=1, thorough=1, shards=1),
             dict(unit="vswitch", test="TestVerifC17KnownWitnessStaleFill", quick=1, thorough=1, shards=1),
             # GORACE log_path is relative to the shard's working directory (.work/C17-<pid>/, removed afterwards);
             # the harness reads <prefix>.<pid> after every round and turns a report into a violation with a replay
-            dict(unit="vswitch_race", test="TestVerifC17Concurrent", quick=800, thorough=40000,
-                 shards_quick=4, env={"GORACE": "log_path=c17race halt_on_error=0"}),
+            dict(unit="vswitch_race", test="TestVerifC17Concurrent", quick=4000, thorough=120000,
+                 shards_quick=8, env={"GORACE": "log_path=c17race halt_on_error=0"}),
         ],
     ),
 }
